@@ -51,7 +51,9 @@ VARIANTS += [
     ("C03-add-duration-drop-us", "C03", DT, "            seconds=seconds,\n            microseconds=microseconds,\n        )\n\n        if units_of_variable_length or self.tz is None:", "            seconds=seconds,\n        )\n\n        if units_of_variable_length or self.tz is None:", "ADD.forward"),
     ("C03-final-fold-drop", "C03", DT, "            tzinfo=self.tz,\n            fold=dt.fold,\n        )\n\n    def subtract", "            tzinfo=self.tz,\n        )\n\n    def subtract", "RECON.state"),
     ("C03-guard-and", "C03", DT, "if units_of_variable_length or self.tz is None:", "if units_of_variable_length and self.tz is None:", "ADD."),
-    ("C03-hours-threshold", "C03", HELP, "    if abs(hours) > 23:", "    if abs(hours) > 24:", "UNITS.carry"),
+    # exactly 24 hours are then left to the final `dt + timedelta(hours=24)`, which adds the same day: behaviour-preserving (found by ADD.tabulated)
+    ("C03-hours-threshold-benign", "C03", HELP, "    if abs(hours) > 23:", "    if abs(hours) > 24:", None),
+    ("C03-hours-radix", "C03", HELP, "        div, mod = divmod(hours * s, 24)", "        div, mod = divmod(hours * s, 25)", "ADD.tabulated"),
     ("C03-timedelta-swap", "C03", HELP, "        minutes=minutes,\n        seconds=seconds,\n        microseconds=microseconds,\n    )", "        minutes=seconds,\n        seconds=minutes,\n        microseconds=microseconds,\n    )", "UNITS.carry"),
     ("C03-sub-route", "C03", DT, "            return self._subtract_timedelta(other)", "            return self._add_timedelta_(other)", "DUNDER.route"),
 ]
